@@ -203,3 +203,41 @@ theorem parseEntries_rest_indep (E E' : Env) (n : Nat) (inp : Bytes) (s s' : PSt
             exact ih _ _ _
 
 end BfeVerif.C39
+
+namespace BfeVerif.C39
+
+/-- `io.ReadFull(src, buf[:n])` on a source that delivers its bytes in chunks (empty chunks = empty reads):
+    the bytes obtained (fewer than n only at the end of the source) and the source that is left. -/
+def readFullS : List Bytes → Nat → Bytes × List Bytes
+  | [], _ => ([], [])
+  | c :: cs, n =>
+    if n = 0 then ([], c :: cs)
+    else if c.length ≤ n then
+      let r := readFullS cs (n - c.length)
+      (c ++ r.1, r.2)
+    else (c.take n, c.drop n :: cs)
+
+theorem readFullS_spec (cs : List Bytes) (n : Nat) :
+    (readFullS cs n).1 = cs.flatten.take n ∧ (readFullS cs n).2.flatten = cs.flatten.drop n := by
+  induction cs generalizing n with
+  | nil => simp [readFullS]
+  | cons c cs ih =>
+    unfold readFullS
+    by_cases h0 : n = 0
+    · subst h0; simp
+    · simp only [h0, if_false]
+      by_cases hle : c.length ≤ n
+      · simp only [hle, if_true, List.flatten_cons]
+        obtain ⟨h1, h2⟩ := ih (n - c.length)
+        constructor
+        · rw [h1, List.take_append]
+          simp [List.take_of_length_le hle]
+        · rw [h2, List.drop_append]
+          simp [List.drop_of_length_le hle]
+      · simp only [hle, if_false, List.flatten_cons]
+        have hlt : n < c.length := by omega
+        constructor
+        · rw [List.take_append_of_le_length (by omega)]
+        · rw [List.drop_append_of_le_length (by omega)]
+
+end BfeVerif.C39
